@@ -198,6 +198,41 @@ a = f(alpha=1, beta="b", gamma=1.5, delta=None, epsilon=b"e")
 b = g(**a)
 c = g(**{"zeta": 1, "eta": 2, "theta": 3})
 '''),
+    ('stress:bundled-enum-union', '''
+import enum
+def pick(a: enum.Flag, b: enum.IntFlag, c):
+  if c: return a
+  return b
+class Colour(enum.IntFlag):
+  RED = 1
+  BLUE = 2
+def either(a: enum.Flag, c):
+  return a if c else Colour.RED
+class Kind(enum.Enum):
+  A = 1
+  B = "b"
+v = Kind.A.value
+'''),
+    ('stress:bundled-collections', '''
+import collections
+Point = collections.namedtuple("Point", ["x", "y"])
+def f(c):
+  d = collections.OrderedDict()
+  e = collections.defaultdict(list)
+  if c: return d
+  return e
+q = collections.deque([1, "a"])
+p = Point(1, "s")
+'''),
+    ('stress:bundled-attr', '''
+import attr
+@attr.s
+class A:
+  x = attr.ib(default=1)
+  y = attr.ib(type=str, default="s")
+a = A()
+b = attr.evolve(a, x=2) if __random__ else a
+'''),
     ('stress:multiple-inheritance-attrs', '''
 class A:
   x = 1
